@@ -1,8 +1,27 @@
-(* C06 -- canonical CMS blob; encode/decode inverse. Statements only (filled in as the proofs land). *)
-From V Require Import Prelude.Base Model.Asn1 Model.Pkcs7 Model.Blob.
+(* C06 -- emitted blobs are canonical CMS in Windows' layout; encode/decode are inverse. Statements only.
+   Models: Model/Pkcs7.v, Model/Blob.v (on Model/Asn1.v, Model/KeyId.v). wf_blob is boolean: wf_kid for the
+   key identifier (32-bit fields, 16-byte root key id, encodable names), encodable SID, OIDs with first arc
+   <= 2 and second arc <= 39 (what the writer accepts), every field shorter than 2^32 octets, optional
+   parameters None or non-empty (the code tests truthiness, so present-but-empty is written as absent). *)
+From V Require Import Prelude.Base Prelude.PyInt Prelude.PySlice Prelude.PyStr.
+From V Require Import Model.Types Model.KeyId Model.Asn1 Model.Pkcs7 Model.Blob Spec.DerSpec.
+From V Require Import Proofs.BlobLib Proofs.BlobPkcs7 Proofs.GkdiKeyId Proofs.BlobMain.
 
 Theorem C06_oids : oid_enveloped_data = [1; 2; 840; 113549; 1; 7; 3] /\ oid_data = [1; 2; 840; 113549; 1; 7; 1] /\
   oid_ms_software = [1; 3; 6; 1; 4; 1; 311; 74; 1] /\ oid_pd_sid = [1; 3; 6; 1; 4; 1; 311; 74; 1; 1] /\
   oid_aes256_wrap = [2; 16; 840; 1; 101; 3; 4; 1; 45] /\ oid_aes256_gcm = [2; 16; 840; 1; 101; 3; 4; 1; 46].
 Proof. repeat split; reflexivity. Qed.
 Print Assumptions C06_oids.
+
+(* decode (encode x) = x for every well-formed blob value, in-envelope (env = true) and trailing-ciphertext
+   (env = false) layouts; the ContentInfo part is one TLV whose header gives its exact length *)
+Theorem C06_decode_encode : forall b env, wf_blob b = true ->
+  exists ci, blob_pack b env = Ok (ci ++ trailing b env) /\ blob_unpack (ci ++ trailing b env) = Ok b /\
+    (exists h, forall rest, peek_header (ci ++ rest) = Ok h /\ h_tlen h + h_len h = len ci).
+Proof. exact blob_roundtrip. Qed.
+Print Assumptions C06_decode_encode.
+
+Theorem C06_reencode : forall b env, wf_blob b = true ->
+  exists bs b', blob_pack b env = Ok bs /\ blob_unpack bs = Ok b' /\ blob_pack b' env = Ok bs.
+Proof. exact blob_reencode. Qed.
+Print Assumptions C06_reencode.
